@@ -26,6 +26,7 @@ Inductive kind :=
 | KExists | KSubquery | KCast | KList | KAliased
 | KCreateView | KCreateMView | KCreateIndex | KIndexCol   (* statements that CARRY a query / an expression without being queries *)
 | KCreateTable | KColumnDef | KColConstraint | KTabConstraint
+| KDescribe                                                (* EXPLAIN / DESCRIBE of a query *)
 | KShared
 | KOpaque (ty : N).
 
@@ -74,7 +75,7 @@ Definition kind_eqb (a b : kind) : bool :=
   | KAliased, KAliased | KShared, KShared
   | KCreateView, KCreateView | KCreateMView, KCreateMView | KCreateIndex, KCreateIndex | KIndexCol, KIndexCol
   | KCreateTable, KCreateTable | KColumnDef, KColumnDef | KColConstraint, KColConstraint
-  | KTabConstraint, KTabConstraint => true
+  | KTabConstraint, KTabConstraint | KDescribe, KDescribe => true
   | KOpaque x, KOpaque y => x =? y
   | _, _ => false
   end.
